@@ -78,12 +78,39 @@ def stop_oracle(r):
     return None
 
 
+def early_oracle(r):
+    if r['verdict'] == 'replay-divergence':
+        return None
+    cfg = r['cfg']
+    if r['verdict'] != 'ok':
+        return (f'run did not finish: {r["verdict"]}; blocked = {r["blocked"]}', None)
+    for k, rd in enumerate(r['rounds']):
+        want = Counter(x for row in cfg['items'][k] for x in row)
+        got = Counter(x for g in rd['got'] for x in g)
+        if rd['errors'] or rd.get('next_errors'):
+            return (f'round {k}: {rd["errors"]} {rd.get("next_errors")}', None)
+        if got != want:
+            return (f'round {k}: the consumer received {sorted(got.elements())}, the suppliers put {sorted(want.elements())}', None)
+        if rd.get('late') not in (None, []):
+            return (f'round {k}: iterating once more over the finished round yielded {rd["late"]}', None)
+        if rd.get('renew_error'):
+            return (f'round {k}: renew failed: {rd["renew_error"]} (suppliers of the next round had started putting: '
+                    f'{cfg["early_put"][k]}; somebody iterated over the finished round again: {cfg["late_iter"][k]})', None)
+    if len(r['rounds']) != cfg['rounds']:
+        return (f'only {len(r["rounds"])} of {cfg["rounds"]} rounds ran', None)
+    return None
+
+
 def parts():
     return [
         core.Part('rounds', 'harness.scen_iterq', 'iterq', 450, 8000, 'DriverIterQ', si.coq_case, oracle,
                   lambda r: r['cfg']['ncons'] >= 2 and sum(len(x) for row in r['cfg']['items'] for x in row) >= 2,
                   shard=200,
                   describe=lambda r: {k: r.get(k) for k in ('cfg', 'strategy', 'verdict', 'rounds', 'blocked', 'events')}),
+        core.Part('early', 'harness.scen_iterq', 'early', 150, 2500, None, None, early_oracle,
+                  lambda r: any(r['cfg']['early_put'][:-1]) and any(r['cfg']['late_iter'][:-1]),
+                  key=lambda r: str(r['cfg']) + str(r['decisions'][:60]),
+                  describe=lambda r: {k: r.get(k) for k in ('cfg', 'strategy', 'verdict', 'rounds', 'blocked')}),
         core.Part('stop', 'harness.scen_iterq', 'stop', 120, 2000, None, None, stop_oracle,
                   lambda r: any(v[0] == 'stop' for v in r['ends'].values()),
                   key=lambda r: str(r['cfg']) + str(r['decisions'][:50]),
@@ -102,7 +129,7 @@ def check(tier, seed, replay=None):
         rule='random configurations (1-3 suppliers with 0-5 items each, 1-3 consumers, queue bound 0/1/2/3, 1-3 rounds separated by '
              'renew) x schedule strategies (random, PCT, greedy orders, greedy+flips); the real IterableQueue runs under the deterministic '
              'scheduler and each run is replayed in the Coq model; the oracle compares per round the multiset received with the multiset '
-             'put, the markers and items left, and renew. Second scenario (oracle only): a stop event is set at a virtual time while '
+             'put, the markers and items left, and renew. Second scenario (oracle only, one consumer): the suppliers of the next round may start putting before renew (put_end(wait_for_renew=True)) and somebody iterates once more over the finished round. Third scenario (oracle only): a stop event is set at a virtual time while '
              'parties are blocked; all must end, StopRequested within the 1 s wait interval. non-trivial = >= 2 consumers and >= 2 items '
              '(rounds) / some party raised StopRequested (stop); distinct = distinct (configuration, trace)',
         replay=replay, post=post)
